@@ -14,6 +14,7 @@ package main
 //   listeners on localhost (oracle only).
 
 import (
+	"bytes"
 	"encoding/hex"
 	"encoding/json"
 	"fmt"
@@ -24,6 +25,7 @@ import (
 
 	. "verifharness/lib"
 
+	"github.com/ansible/receptor/pkg/framer"
 	"github.com/ansible/receptor/pkg/netceptor"
 )
 
@@ -423,6 +425,11 @@ func stagePeer(c *Ctx, im *Impl, cf *CaseFile) {
 		add("socket-"+tr, ds, tr)
 	}
 
+	framerCases(r, epoch, c.Thorough(), func(cs *c07Case) {
+		cs.spec.ID = len(cases)
+		cases = append(cases, cs)
+	})
+
 	specs := make([]CaseSpec, len(cases))
 	for i, cs := range cases {
 		specs[i] = cs.spec
@@ -443,6 +450,10 @@ func stagePeer(c *Ctx, im *Impl, cf *CaseFile) {
 		im.Count("peer "+transport+" "+seqKey(cs.dgrams), len(cs.dgrams) > 1)
 		replay := map[string]interface{}{"phase": cs.phase, "transport": transport, "epoch": cs.spec.Epoch,
 			"datagrams_hex": hexList(cs.dgrams), "kinds": cs.kinds}
+		if strings.HasPrefix(cs.phase, "framer-") {
+			replay["stream_case"] = string(cs.dgrams[0])
+			delete(replay, "datagrams_hex")
+		}
 		if o == nil {
 			im.Violate("harness: no observation for a case", "harness-no-observation", replay)
 			continue
@@ -502,6 +513,162 @@ func stagePeer(c *Ctx, im *Impl, cf *CaseFile) {
 	}
 }
 
+// ---------- stream framing (pkg/framer: TCP backend and ExternalBackend over a net.Conn) ----------
+
+// stageFramerSweep: white box, every one of the 65536 header values on the real framer, with no
+// tail, a tail shorter than announced, and a sufficient tail followed by another frame.  Oracle:
+// never a panic; a message is ready iff the announced number of bytes has arrived; GetMessage
+// returns exactly the announced bytes and leaves exactly the rest.  (Model/Proto.v frame_pop
+// computes the announced length in N; this is the check that the implementation's 16-bit
+// arithmetic agrees with it on all header values.)
+func stageFramerSweep(c *Ctx, im *Impl) {
+	pattern := make([]byte, 65536+8)
+	for i := range pattern {
+		pattern[i] = byte(i*7 + 3)
+	}
+	bad := 0
+	try := func(h int, what string, f func() string) {
+		defer func() {
+			if r := recover(); r != nil && bad < 8 {
+				bad++
+				im.Violate(fmt.Sprintf("framer panics on header %02x %02x (announced length %d), %s: %v", h&0xff, h>>8, h, what, r),
+					"framer:panic", map[string]interface{}{"header": h, "tail": what})
+			}
+		}()
+		if msg := f(); msg != "" && bad < 8 {
+			bad++
+			im.Violate(fmt.Sprintf("framer, header %02x %02x (announced length %d), %s: %s", h&0xff, h>>8, h, what, msg),
+				"framer:wrong-frame", map[string]interface{}{"header": h, "tail": what})
+		}
+	}
+	for h := 0; h < 65536; h++ {
+		hdr := []byte{byte(h), byte(h >> 8)}
+		im.Count(fmt.Sprintf("framer-header %d", h), true)
+		try(h, "no tail", func() string {
+			f := framer.New()
+			f.RecvData(hdr[:1])
+			if f.MessageReady() {
+				return "ready after one header byte"
+			}
+			f.RecvData(hdr[1:])
+			m, err := f.GetMessage()
+			if h == 0 {
+				if err != nil || len(m) != 0 {
+					return fmt.Sprintf("empty frame not returned as an empty message (err=%v len=%d)", err, len(m))
+				}
+				return ""
+			}
+			if f.MessageReady() || err == nil {
+				return "a message is ready although no byte of it has arrived"
+			}
+			return ""
+		})
+		if h > 0 {
+			k := h - 1
+			if k > 9 {
+				k = 9
+			}
+			try(h, "short tail", func() string {
+				f := framer.New()
+				f.RecvData(append(append([]byte{}, hdr...), pattern[:k]...))
+				if f.MessageReady() {
+					return fmt.Sprintf("ready with %d of %d bytes", k, h)
+				}
+				if _, err := f.GetMessage(); err == nil {
+					return fmt.Sprintf("GetMessage succeeds with %d of %d bytes", k, h)
+				}
+				return ""
+			})
+		}
+		try(h, "sufficient tail + next frame", func() string {
+			f := framer.New()
+			f.RecvData(hdr)
+			f.RecvData(pattern[:h])
+			f.RecvData([]byte{1, 0, 'Z'})
+			if !f.MessageReady() {
+				return "not ready although the announced bytes have arrived"
+			}
+			m, err := f.GetMessage()
+			if err != nil || len(m) != h || !bytes.Equal(m, pattern[:h]) {
+				return fmt.Sprintf("GetMessage returns %d bytes (err=%v), announced %d", len(m), err, h)
+			}
+			m2, err := f.GetMessage()
+			if err != nil || string(m2) != "Z" {
+				return fmt.Sprintf("the following frame is not intact: %q err=%v", m2, err)
+			}
+			if f.MessageReady() {
+				return "ready on an empty buffer"
+			}
+			return ""
+		})
+	}
+	im.Hist("framer-sweep-headers-65536")
+}
+
+// framerCases: frame headers at and around every boundary of the 16-bit length, over the real
+// TCP listener and over ExternalBackend (both go through pkg/framer), before the handshake,
+// after it, glued to the end of another frame and split between two writes; each alone,
+// followed by fewer bytes than announced, by exactly as many, and by more.
+func framerCases(r *Rng, epoch uint64, thorough bool, add func(cs *c07Case)) {
+	frame := func(b []byte) []byte { return append([]byte{byte(len(b)), byte(len(b) >> 8)}, b...) }
+	hsFrame := frame(msg(1, handshakeTree(atkID), nil))
+	lens := []int{0, 1, 2, 0x7ffe, 0x7fff, 0x8000, 0x8001, 0xfffc, 0xfffd, 0xfffe, 0xffff}
+	for i := 0; i < 4; i++ {
+		lens = append(lens, 0xff00+r.Intn(256))
+	}
+	id := 0
+	for _, tr := range []string{"tcp", "ext"} {
+		for _, phase := range []string{"pre", "post", "glued", "split"} {
+			for _, l := range lens {
+				for _, tail := range []string{"alone", "short", "exact", "more"} {
+					if tail == "short" && l == 0 {
+						continue
+					}
+					if !thorough && l >= 0x7ffe && l < 0xfffc && (phase == "glued" || phase == "split") && tail != "exact" {
+						continue // quick tier: the mid-range lengths in two phases only
+					}
+					cs := &c07Case{phase: "framer-" + tr + "-" + phase}
+					cs.spec = CaseSpec{NodeID: selfID, Epoch: epoch, GoodPeer: goodID, Sessions: []SessSpec{{Cost: 1, Transport: tr}}, SettleMs: 40}
+					hdr := []byte{byte(l), byte(l >> 8)}
+					fill := 0
+					switch tail {
+					case "short":
+						fill = l - 1
+						if fill > 5 {
+							fill = 5 + r.Intn(l-5)
+						}
+					case "exact":
+						fill = l
+					case "more":
+						fill = l
+					}
+					var steps []Step
+					switch phase {
+					case "post":
+						steps = append(steps, Step{Op: "raw", Data: hsFrame, PauseMs: 5})
+						steps = append(steps, Step{Op: "raw", Data: hdr, Fill: fill})
+					case "glued":
+						steps = append(steps, Step{Op: "raw", Data: append(frame([]byte{0xfe, 1, 2, 3}), hdr...), Fill: fill})
+					case "split":
+						steps = append(steps, Step{Op: "raw", Data: hdr[:1], PauseMs: 5})
+						steps = append(steps, Step{Op: "raw", Data: hdr[1:], Fill: fill})
+					default:
+						steps = append(steps, Step{Op: "raw", Data: hdr, Fill: fill})
+					}
+					if tail == "more" {
+						steps = append(steps, Step{Op: "raw", Data: hsFrame, PauseMs: 2}, Step{Op: "raw", Data: frame([]byte{})})
+					}
+					cs.spec.Steps = steps
+					cs.kinds = []string{fmt.Sprintf("frame-header-%s", tail)}
+					cs.dgrams = [][]byte{[]byte(fmt.Sprintf("%s/%s/len=%d/%s/fill=%d", tr, phase, l, tail, fill))}
+					id++
+					add(cs)
+				}
+			}
+		}
+	}
+}
+
 func hexList(ds [][]byte) []string {
 	o := make([]string, len(ds))
 	for i, d := range ds {
@@ -512,9 +679,10 @@ func hexList(ds [][]byte) []string {
 
 func runC07(c *Ctx) {
 	im := NewImpl("C07", c.Seed, c.Tier)
-	im.Rule = "stage 1: JSON value trees (every field of routingUpdate/serviceAdvertisementFull x 37 value shapes, respelled keys, generated objects with unknown/duplicate members, arbitrary JSON) decoded by encoding/json into the real structs vs Model/PJson.v; stage 2: datagram sequences (corpus witnesses; every length 0..40 x type byte x phase; all 256 type bytes; field x shape substitutions; self-origin/duplicate updates; generated mixes of empty/random/garbage/data/route/advert datagrams before and after the handshake) played by a scripted peer to a real node in a child process, plus the same over real TCP and UDP listeners; non-trivial = more than the trailing no-op; distinct by transport and datagram bytes"
+	im.Rule = "stage 1: JSON value trees (every field of routingUpdate/serviceAdvertisementFull x 37 value shapes, respelled keys, generated objects with unknown/duplicate members, arbitrary JSON) decoded by encoding/json into the real structs vs Model/PJson.v; stage 2: datagram sequences (corpus witnesses; every length 0..40 x type byte x phase; all 256 type bytes; field x shape substitutions; self-origin/duplicate updates; generated mixes of empty/random/garbage/data/route/advert datagrams before and after the handshake) played by a scripted peer to a real node in a child process, plus the same over real TCP and UDP listeners; stream framing: all 65536 frame-header values on the real pkg/framer (no tail / short tail / sufficient tail + next frame), and frame headers 0,1,2,0x7ffe..0x8001,0xfffc..0xffff,random ff.. alone/short/exact/more over the TCP listener and ExternalBackend before, after, glued to and split across the handshake; non-trivial = more than the trailing no-op; distinct by transport and datagram bytes"
 	cf := &CaseFile{Dir: c.Out, Prop: "C07", Imports: []string{"Model.Proto"}, CaseType: "c07_case", CheckFn: "c07_check", PerShard: 120}
 	stageJSON(c, im, cf)
+	stageFramerSweep(c, im)
 	stagePeer(c, im, cf)
 	Must(cf.Write())
 	Must(im.Write(c.Out))
